@@ -109,6 +109,11 @@ pub fn scan(s: &str) -> Result<Vec<Piece>, (String, String)> {
                 return Err((format!("attr-syntax:{}", name), format!("unterminated attribute value in <{}>", inner)));
             }
             j += 1;
+            // XML attribute values must not contain '<' or a bare '&'
+            let amp_ok = regex::Regex::new(r"&(?:[A-Za-z][A-Za-z0-9]*|#[0-9]+|#x[0-9A-Fa-f]+);").unwrap();
+            if val.contains('<') || amp_ok.replace_all(&val, "").contains('&') {
+                return Err((format!("attr-value-unescaped:{}", name), format!("attribute {} of <{}> contains an unescaped '<' or '&'", an, inner)));
+            }
             attrs.push((an, val));
         }
         out.push(if empty { Piece::Empty(name, attrs) } else { Piece::Open(name, attrs) });
@@ -173,7 +178,8 @@ pub fn judge_markup(engine: &str, speech: &str, plain: &str, ids: &[String], boo
                 if n == "mark" || n == "bookmark" {
                     n_marks += 1;
                     let val = attrs.first().map(|a| a.1.clone()).unwrap_or_default();
-                    if !ids.contains(&val) {
+                    let unescape = |s: &str| s.replace("&lt;", "<").replace("&gt;", ">").replace("&apos;", "'").replace("&quot;", "\"").replace("&amp;", "&");
+                    if !ids.iter().any(|i| unescape(i) == unescape(&val)) {
                         v.push((format!("{}:mark-not-an-id", engine), format!("<{} ..='{}'/> does not name an id of the expression", n, val)));
                     }
                 }
@@ -209,6 +215,8 @@ impl Property for C13 {
         let operand = prop_oneof![4 => one_char_of("abcxyzuvwkmnt"), 3 => one_char_of("ABCXYZPQRST"), 1 => one_char_of("αβγθλΔΩ"), 1 => select_str(ELEMENTS)].prop_map(|s| MNode::mi(&s));
         let number = prop_oneof![3 => "[0-9]{1,3}", 1 => "[0-9]{1,3}\\.[0-9]{1,2}"].prop_map(|s| MNode::mn(&s));
         let tree = textbook(prop_oneof![3 => operand, 2 => number].boxed(), cfg).prop_map(|n| MNode::math(vec![n]));
+        // one expression in five carries author ids (bookmarks name them), some with characters that need escaping in markup
+        let tree = (tree, 0..10u8, proptest::collection::vec(any::<u16>(), 4), 0..4u8).prop_map(|(t, k, picks, style)| if k < 2 { crate::props::c09::plant_ids(t, 1 + k, picks, style, false) } else { t });
         let prefs = (
             sel(&languages()),
             sel(&["ClearSpeak", "SimpleSpeak"]),
